@@ -1,13 +1,13 @@
 (* Model of vivarium/framework/randomness/index_map.py : IndexMap  (DESIGN.md C03, C04).
 
-   index_map.py anchors (line numbers of /repo/src, docstrings stripped):
-     _convert_to_ten_digit_int 193-229, _clip_to_seconds 238-240, _spread 242-244, _shift 246-249 -> [conv10]
-     _digit 232-235                                                                               -> [digit]
-     _hash 157-191 (wrapping int64 product of prime powers, + salt per column, floor-mod size)     -> [hash_raw], [hash]
-     _resolve_collisions 127-155 (drop_duplicates keep-first, Index.difference, salt 1,2,...)       -> [dedup], [difference], [resolve]
-     _build_final_mapping 97-125                                                                    -> [build]
-     _parse_new_keys 68-95, update 38-66 (uniqueness check, join on the key levels, sort by simulant) -> [update]
-     __getitem__ 251-258                                                                            -> [getitem]
+   index_map.py anchors (line numbers of /repo/src at commit b091dd41, docstrings stripped):
+     _convert_to_ten_digit_int 194-230, _clip_to_seconds 239-241, _spread 243-245, _shift 247-250 -> [conv10]
+     _digit 233-236                                                                               -> [digit]
+     _hash 158-192 (wrapping int64 product of prime powers, + salt per column, floor-mod size)     -> [hash_raw], [hash]
+     _resolve_collisions 128-156 (drop_duplicates keep-first, Index.difference, salt 1,2,...)       -> [dedup], [difference], [resolve]
+     _build_final_mapping 98-126                                                                    -> [build]
+     _parse_new_keys 69-96, update 38-67 (uniqueness check, re-attachment by key, sort by simulant) -> [update]
+     __getitem__ 252-259                                                                            -> [getitem]
 
    A key-column value is a [cell]:
      KDate raw    datetime64 value, [raw] = the int64 the column holds IN ITS OWN UNIT (the code calls
@@ -196,8 +196,11 @@ Definition keys_of (m : imap) : list key := map e_key m.
 Fixpoint nodup_keys (l : list key) : bool :=
   match l with [] => true | k :: r => negb (key_mem k r) && nodup_keys r end.
 
-(* final_mapping.index.join(final_mapping_index): attach to every key the simulant that supplied it (keys are
-   unique at this point, the first match is the match) *)
+(* final_mapping.reindex(final_keys); final_mapping.index = final_mapping_index (lines 64-65 since commit b091dd41):
+   every key is attached, BY LABEL, to the simulant that supplied it (keys are unique at this point, the first match is
+   the match).  Before that commit the code used Index.join, which for a ONE-level key index returned the rows in
+   simulant order while the values stayed in mapping order: positions were handed to the wrong keys whenever a
+   colliding key was re-hashed (finding F-U, found by this correspondence; corpus cases in harness/props/c03.py, c04.py). *)
 Definition find_sim (k : key) (idx : list (Z * key)) : option Z :=
   match find (fun sk => key_eqb (snd sk) k) idx with Some (s, _) => Some s | None => None end.
 Definition join (fm : list kp) (idx : list (Z * key)) : imap :=
@@ -223,10 +226,10 @@ Definition update_h (size : Z) (crn : bool) (m : imap) (b : batch) (t : cell) (f
   if is_nil b || negb crn then Ok m else                                  (* 50-51 *)
   let fidx := sk_of m ++ b in                                             (* _parse_new_keys *)
   if negb (nodup_keys (map snd fidx)) then Rejected ERandomness else      (* 55-57 *)
-  if negb (forallb key_ok (map snd b) && cell_ok t) then Rejected ERandomness else   (* 225 (inside _hash) *)
+  if negb (forallb key_ok (map snd b) && cell_ok t) then Rejected ERandomness else   (* 226 (inside _hash) *)
   match build (h_salt size) fuel (kp_of m) hb with
   | None => OutOfFuel
-  | Some fm => Ok (sort_by_sim (join fm fidx))                            (* 62-66 *)
+  | Some fm => Ok (sort_by_sim (join fm fidx))                            (* 64-67 *)
   end.
 
 Definition update (size : Z) (crn : bool) (m : imap) (b : batch) (t : cell) (fuel : nat) : result imap :=
